@@ -12,8 +12,8 @@ use isograph_lang_types::{
 };
 use isograph_schema::{
     ClientFieldVariant, ClientScalarSelectable, CompilationProfile, ContainsIsoStats, FieldMapItem,
-    FieldTraversalResult, ID_ENTITY_NAME, ID_FIELD_NAME, IsographDatabase, NODE_FIELD_NAME,
-    NameAndArguments, NormalizationKey, RefetchStrategy, TargetPlatform,
+    FieldTraversalResult, ID_ENTITY_NAME, ID_FIELD_NAME, IsographDatabase, LINK_FIELD_NAME,
+    NODE_FIELD_NAME, NameAndArguments, NormalizationKey, RefetchStrategy, TargetPlatform,
     accessible_client_selectables, deprecated_client_selectable_map, flattened_entity_named,
     inline_fragment_reader_selection_set, refetch_strategy_for_client_scalar_selectable_named,
     selectable_named, validate_entire_schema, validated_entrypoints,
@@ -390,6 +390,20 @@ fn get_artifact_path_and_content_impl<TCompilationProfile: CompilationProfile>(
             db,
             user_written_client_type.dereference(),
         ));
+
+        // The iso overload of a client pointer refers to the __link output type of the
+        // pointer's target, whether or not the pointer is selected anywhere.
+        if let SelectionType::Object(client_object_selectable) =
+            user_written_client_type.dereference()
+        {
+            encountered_output_types.insert(
+                (
+                    client_object_selectable.lookup(db).target_entity.inner().0,
+                    *LINK_FIELD_NAME,
+                )
+                    .scalar_selected(),
+            );
+        }
 
         match encountered_client_type_map.get(&client_type_name.inner()) {
             Some(FieldTraversalResult {
